@@ -60,7 +60,94 @@ def request_of(v):
     return None
 
 
+def run_from_cwd(repo, cwd_kind, start):
+    """the real zerv binary with -C <start> from a given kind of current directory -> (status, stdout, stderr)"""
+    import subprocess, tempfile, shutil
+    zb = native.zerv_bin()
+    base = tempfile.mkdtemp(prefix='c14cwd_', dir=os.path.join(native.BUILD))
+    try:
+        if cwd_kind is None:          # a removed directory: getcwd fails in the child
+            d = os.path.join(base, 'gone')
+            os.mkdir(d)
+            cmd = 'cd %s && rmdir %s && exec %s version -C %s' % (d, d, zb, start)
+        else:
+            d = {'/x': os.path.join(base, 'x'), '/': '/'}.get(cwd_kind) or os.path.join(repo, 's')
+            os.makedirs(d, exist_ok=True)
+            cmd = 'cd %s && exec %s version -C %s' % (d, zb, start)
+        p = subprocess.run(['bash', '-c', cmd], capture_output=True, text=True, timeout=60, stdin=subprocess.DEVNULL)
+        return p.returncode, p.stdout, p.stderr.strip().splitlines()[-1:] if p.stderr else []
+    finally:
+        shutil.rmtree(base, ignore_errors=True)
+
+
+def real_repo():
+    """a small real repository (one tagged commit, sub-directories s/t) under build/"""
+    import subprocess, tempfile
+    r = tempfile.mkdtemp(prefix='c14repo_', dir=native.BUILD)
+    sh = lambda *a: subprocess.run(a, cwd=r, check=True, capture_output=True, env=dict(os.environ, GIT_AUTHOR_NAME='a', GIT_AUTHOR_EMAIL='a@b', GIT_COMMITTER_NAME='a', GIT_COMMITTER_EMAIL='a@b', GIT_CONFIG_GLOBAL='/dev/null'))
+    sh('git', 'init', '-q', '-b', 'main')
+    os.makedirs(os.path.join(r, 's', 't'))
+    open(os.path.join(r, 's', 't', 'f'), 'w').write('x')
+    sh('git', 'add', '.')
+    sh('git', 'commit', '-q', '-m', 'c')
+    sh('git', 'tag', 'v1.2.3')
+    return r
+
+
+def confirm_root(v):
+    """the real find_vcs_root_with_limit on a real directory tree, called from the two current directories of the
+    counterexample (one of them possibly a removed directory) inside the native driver"""
+    d = native.driver()
+    outs = []
+    for k, c in enumerate(v['cwd']):
+        c = '/x' if c == 'not read' else c
+        outs.append(d.call(op='find_root', root=v['root'], start=v['start'], depth=v['depth'], cwd=c, nonce=k))
+    return outs[0] != outs[1], 'find_vcs_root_with_limit(%s, %s) with .git at %s from current directory %s -> %r ; from %s -> %r' % (v['start'], v['depth'], v['root'], v['cwd'][0], outs[0], v['cwd'][1], outs[1])
+
+
+def root_validation(ck):
+    """differential: (a) the path / file-system model against the real std on a real tree — every configuration of the
+    menu from two current directories; (b) the real binary gives the same answer for -C <repository root> from every
+    kind of current directory"""
+    import shutil
+    import models_path as MP
+    d = native.driver()
+    for (start, depth, root) in c14.root_args(ck.tier):
+        for cwd in ('/r/s', None) if start.startswith('/') else ('/r/s', '/x'):
+            r = d.call(op='find_root', root=root, start=start, depth=depth, cwd=cwd, nonce=7)
+            # the model's answer, computed with the same helper functions the MIR run uses
+            MP.FS[0] = {'/', '/r', '/r/s', '/r/s/t', '/x', '/x/y'} | ({root + '/.git'} if root else set())
+            cur = start if start.startswith('/') else (cwd + '/' + start)
+            exp, k = None, 0
+            while True:
+                if MP.resolve(cur + '/.git') in MP.FS[0]:
+                    exp = cur
+                    break
+                if depth is not None and k >= depth:
+                    break
+                cs = MP.comps(cur)
+                if not cs or cs == ['/']:
+                    break
+                cur, k = MP.unparse(cs[:-1]), k + 1
+            ck.validated += 1
+            got = r.get('root') if r.get('ok') else None
+            if got != exp:
+                ck.validation_mismatch.append(dict(what='find_root', start=start, depth=depth, root=root, cwd=cwd, model=exp, native=r))
+    repo = real_repo()
+    try:
+        outs = [run_from_cwd(repo, k, repo) for k in ('/r/s', '/x', '/', None)]
+        ck.validated += len(outs)
+        if outs[0][0] != 0 or outs[0][1].strip() != '1.2.3':
+            ck.fail_inconclusive('process-level -C run does not work in this sandbox: %r' % (outs[0],))
+        elif any(o != outs[0] for o in outs):
+            ck.confirmed('env_dependent:vcs_root', '`zerv version -C <abs>` differs between current directories: %r' % (outs,), dict(clause='env_dependent', what='vcs_root', start='/r', depth=0, root='/r', cwd=['/r/s', None]))
+    finally:
+        shutil.rmtree(repo, ignore_errors=True)
+
+
 def confirm(v):
+    if v['what'] == 'vcs_root':
+        return confirm_root(v)
     e1, e2 = envs_of(v)
     if v['what'] == 'flow':
         # the flow op needs argv/vars built by flowlib; run it in both environments
@@ -132,8 +219,8 @@ def main():
     rend = [dict(sp, fmt=f) for sp in (c06_schemas.presets(ck.tier) + c06_schemas.custom(ck.tier)) if 'ts' in json.dumps(c06.schema_json(sp['schema'])) for f in ('semver', 'pep440')]
     ck.bounds = dict(environment='per execution: local time zone = any whole-hour UTC offset -12..+14, any environment variable absent or one symbolic character, hasher keys of every RandomState any u64; the wall clock is shared between the two executions',
                      timestamps='any second 1970-2199 (minus 14 h at both ends)', patterns=pats_ts, functions=[list(a) for a in fargs],
-                     flow_configurations=len(flows), calendar_schemas=len(rend))
-    ck.outside = ['separate OS processes, current directory (-C), locales, the git source (its facts are C02\'s subject)', 'std hash containers with more than 4 entries iterated under the harness (unsupported)',
+                     flow_configurations=len(flows), calendar_schemas=len(rend), repository_discovery='start paths /r/s/t, /r, /x/y, /, /r/s/.., s, .., . x depth limits none/0/1/3 x repository root /r, /r/s or none; current directory per execution any of /r/s, /x, /r/s/t, / or unreadable (removed directory)')
+    ck.outside = ['separate OS processes, locales, the git source (its facts are C02\'s subject)', 'current directory: decided only for repository discovery (GitVcs::new_with_limit / find_vcs_root_with_limit / is_available on a modelled directory tree); relative -C paths depend on it by definition', 'std hash containers with more than 4 entries iterated under the harness (unsupported)',
                   'environment reads other than chrono Local / std::env::var / RandomState (any other is unsupported -> exit 2, never a pass)', 'the dev timestamp itself (documented wall-clock dependence)']
     ck.assumptions = ['models_env: environment reads answer epoch-private solver variables', 'python std / chrono / Tera-subset models (models_used)']
     cands = []
@@ -148,6 +235,10 @@ def main():
     gargs = c14.git_args(ck.tier)
     ex = engine.explore('c14', 'path_git', gargs, jobs=ck.jobs, deadline=time.time() + (600 if quick else 2400))
     cands += ck.absorb('git extraction (zerv\'s side, git stubbed) twice on the same repository: same facts in every process', ex, bounds=dict(configs=len(gargs)), expect_tags=['two_runs', 'same_output'])
+    rargs = c14.root_args(ck.tier)
+    ex = engine.explore('c14', 'path_root', rargs, jobs=ck.jobs, deadline=time.time() + 600)
+    cands += ck.absorb('repository discovery from an absolute -C path: same outcome from every current directory (incl. an unreadable one)', ex, bounds=dict(configs=len(rargs)), expect_tags=['two_runs', 'same_output', 'found', 'not_found', 'relative_start'])
+    root_validation(ck)
     seen = set()
     for v in cands:
         key = json.dumps(v, sort_keys=True, default=str)
